@@ -214,10 +214,10 @@ def rule_r4(ctx):
 
 
 def run(ctx):
-    rule_r1(ctx)
-    rule_r2(ctx)
-    rule_r4(ctx)
-    c11.rule_r4(ctx)
+    ctx.guard(rule_r1)
+    ctx.guard(rule_r2)
+    ctx.guard(rule_r4)
+    ctx.guard(c11.rule_r4)
     for rr in ctx.rules:
         if rr.id == "C11.R4":
             rr.id = "C14.R6"
